@@ -52,13 +52,17 @@ TRUSTED = [
 ASSUMPTIONS = [
     "instance.num_alternatives == len(instance.alternatives_name); approved alternatives are keys of alternatives_name",
     "isC1P is only called with >= 1 row and >= 1 column (it raises IndexError on a matrix without rows or columns)",
-    "2PART on a profile WITHOUT ballots: the reference (at most two distinct approval sets: zero qualifies) says "
-    "True, is_2_part says False (theorem two_part_no_ballots_refuted; reported as a finding). These 4 cases are "
-    "generated only once known_findings.json holds an OPEN C05 entry with match.predicate 'part2_no_ballots'",
+    "2PART is read as 'at most two distinct approval sets': the profile without ballots is a 2-partition (witness "
+    "[]); since /repo e589929 is_2_part agrees (corpus/C05/is_2_part_no_ballots.json)",
     "ballots of the two partition domains are also exercised with empty approval sets; the theorems do not need the "
     "non-emptiness hypothesis",
 ]
 TIMEOUT_S = 20.0
+COVER_FILES = ["properties/subdomains/consecutive_ones.py",
+               "properties/subdomains/dichotomous/interval.py",
+               "properties/subdomains/dichotomous/singlecrossing.py",
+               "properties/subdomains/dichotomous/euclidean.py",
+               "properties/subdomains/dichotomous/partition.py"]
 CHUNK = 60
 REF_MAX = 8          # reference deciders enumerate permutations of at most this many columns / alternatives / ballots
 
@@ -339,17 +343,6 @@ def _rand_instance(rng, mmax, nmax, big=False):
     return alts, ballots, planted
 
 
-def _open_predicates():
-    """predicates of OPEN known findings (so that a reported defect is exercised once it is registered)"""
-    try:
-        here = os.path.dirname(os.path.dirname(os.path.dirname(os.path.abspath(__file__))))
-        ks = json.load(open(os.path.join(here, "known_findings.json")))["findings"]
-        return {k["match"]["predicate"] for k in ks
-                if k.get("property") == ID and k.get("status") == "open" and "predicate" in k.get("match", {})}
-    except Exception:
-        return set()
-
-
 def generate(tier, seed):
     rng = random.Random(1000003 * seed + 5)
     quick = tier == "quick"
@@ -445,8 +438,6 @@ def generate(tier, seed):
         for n in range(0, 4):
             for prof in itertools.product(subs, repeat=n):
                 for dom in DOMAINS:
-                    if dom == "part2" and n == 0 and "part2_no_ballots" not in _OPEN:
-                        continue
                     out.append(_icase(dom, alts, prof, exh=1, ncat=1 + (len(out) % 2)))
                 out.append(_icase("cimat", alts, prof, exh=1, ncat=1 + (len(out) % 2)))
     if True:
@@ -504,9 +495,6 @@ def generate(tier, seed):
                 tags["planted"] = planted[dom]
             out.append(_icase(dom, alts, ballots, **tags))
     return out
-
-
-_OPEN = _open_predicates()
 
 
 # ---------------------------------------------------------------------------------------------------------
@@ -783,11 +771,6 @@ def shrink(c):
             yield dict(c, payload=[alts, ballots[:i] + [[x for x in b if x != a]] + ballots[i + 1:]], tags=tags)
 
 
-def _part2_no_ballots(c, r, m, failure):
-    return c["op"] == "c05.part2" and len(c["payload"][1]) == 0
-
-
-PREDICATES = {"part2_no_ballots": _part2_no_ballots}
 THEOREMS_FOR_OP = {
     "c05.matrix": "c1p_decide_correct, c1p_check_correct", "c05.cimat": "ci_reduction",
     "c05.ci": "ci_decide_correct, ci_check_correct", "c05.cei": "cei_decide_correct, cei_check_correct",
